@@ -183,7 +183,15 @@ def scenario(sh: Shard, seed, idx, tier):
             fs = out["final_state"]
             t_nf = max((e["t"] for e in ev if e["event"] == "SPA_NOT_FOUND"), default=0.0)
             user_reset_when_healthy = any(x["t0"] >= t_nf and x["api"] == "async_reset" and str(x.get("task", "")).startswith("Task-") and mw.healthy_since <= x["t0"] < out.get("t_final", 0) - 1.0 and x.get("t1") is not None for x in api)
-            if fs == "ERROR_SPA_NOT_FOUND" and not user_reset_when_healthy:
+            # the known terminal state needs the discovery windows to have been hit by the fault script
+            starts = [e["t"] for e in ev if e["event"] == "LOCATING_STARTED" and e["t"] < t_nf]
+            w0 = starts[-2] if len(starts) >= 2 else (starts[-1] if starts else 0.0)
+            log = list(mw.phase_log)
+            modes_in_window = {m for (t_, m, p_), nxt in zip(log, log[1:] + [(1e18, "", 0)]) if t_ < t_nf and nxt[0] > w0}
+            windows_all_healthy = bool(modes_in_window) and modes_in_window <= {"healthy"}
+            if fs == "ERROR_SPA_NOT_FOUND" and windows_all_healthy:
+                key = "C09:spa-not-found-on-healthy-network"
+            elif fs == "ERROR_SPA_NOT_FOUND" and not user_reset_when_healthy:
                 key = "C09:terminal:ERROR_SPA_NOT_FOUND"
             elif interleaved:
                 key = "C09:stranded:pump-interleaved-reset"
